@@ -513,7 +513,7 @@ func (q *Q) prelude() string {
 	if q.mode == ModeInt {
 		b.WriteString("(define-fun tdiv ((a Int) (b Int)) Int (ite (>= a 0) (ite (> b 0) (div a b) (- (div a (- b)))) (ite (> b 0) (- (div (- a) b)) (div (- a) (- b)))))\n")
 		b.WriteString("(define-fun tmod ((a Int) (b Int)) Int (- a (* b (tdiv a b))))\n")
-		b.WriteString("(define-fun slice_ok ((s Slice)) Bool (and (>= (s_off s) 0) (>= (s_len s) 0) (>= (s_cap s) (s_len s)) (=> (= (s_arr s) nil) (= (s_cap s) 0))))\n")
+		b.WriteString("(define-fun slice_ok ((s Slice)) Bool (and (>= (s_off s) 0) (>= (s_len s) 0) (>= (s_cap s) (s_len s)) (<= (s_cap s) 4611686018427387904) (<= (s_off s) 4611686018427387904) (=> (= (s_arr s) nil) (= (s_cap s) 0))))\n")
 	} else {
 		b.WriteString("(define-fun slice_ok ((s Slice)) Bool (and (bvsge (s_off s) (_ bv0 64)) (bvsge (s_len s) (_ bv0 64)) (bvsge (s_cap s) (s_len s)) (bvslt (s_cap s) (_ bv4294967296 64)) (bvslt (s_off s) (_ bv4294967296 64)) (=> (= (s_arr s) nil) (= (s_cap s) (_ bv0 64)))))\n")
 	}
